@@ -70,6 +70,8 @@ class EventProperty(OntologyElement):
 
     def _set_event_type(self, event_type):
         self.__event_type = event_type
+        for concept_association in self.__concepts.values():
+            concept_association._set_event_type(event_type)
         return self
 
     def _child_modified_callback(self):
@@ -951,9 +953,9 @@ class EventProperty(OntologyElement):
                 set(self.get_concept_associations().keys())
 
             for concept_name in new_concept_names:
-                self.add_associated_concept(event_property.get_concept_associations()[concept_name])
+                association = event_property.get_concept_associations()[concept_name]
+                self.add_associated_concept(association._set_event_type(self.__event_type)._set_property(self))
 
-            self.__event_type = event_property.__event_type
 
         return self
 
